@@ -360,6 +360,35 @@ def rules(ck, P):
                      "lookup and stream of %s call %s with different configuration: %s — the streamed tile is not the tile a lookup returns" %
                      (b["self_adt"].rsplit("::", 2)[-2], q.rsplit("::", 1)[-1], "; ".join("argument %d is `%s` in the lookup and `%s` in the stream" % (i + 1, x, y) for i, x, y in diff)), ir.loc(ns))
     ck.anchor("R-AGREE", "tile-producing helpers shared by lookup and stream", list(range(n_shared)), 1)
+    # a zero-length payload is either a tile on both paths or on neither: a reader whose lookup answers None for an empty blob / an empty
+    # range while its stream still delivers the coordinate (or the other way round) disagrees with itself on exactly those tiles
+    n_e = 0
+    for fq in E:
+        b = P.fn(fq)
+        if b.get("trait_default_of") or not b.get("self_adt") or "::container::" not in b["q"]:
+            continue
+        look = [x for x in P.bodies if x.get("self_adt") == b["self_adt"] and x.get("trait_item", "").endswith("TilesReaderTrait::get_tile_data")]
+        if not look:
+            continue
+        n_e += 1
+
+        def emptiness(body):
+            out = []
+            for y in ir.walk_nodes(body["body"]):
+                if y.get("k") == "mcall" and y.get("name") == "is_empty" and any(t in ((ir.strip(y["recv"]).get("t") or "") + (ir.strip(y["recv"]).get("ta") or "")) for t in ("Vec<u8>", "Blob", "[u8]", "ByteRange")):
+                    out.append(ir.loc(y))
+                elif y.get("k") == "bin" and y.get("op") in ("==", "!=", ">", "<", ">=", "<="):
+                    for side, other in ((y["l"], y["r"]), (y["r"], y["l"])):
+                        pl = ir.place_str(ir.strip(side))
+                        if (pl.endswith(".length") or pl.endswith(".len()")) and ir.const_eval(other, {}) in (0, 1) and \
+                                any(t in ((ir.strip(ir.strip(side).get("e", ir.strip(side).get("recv", {}))).get("t") or "")) for t in ("ByteRange", "Vec<u8>", "Blob", "[u8]")):
+                            out.append(ir.loc(y))
+            return out
+        es, el = emptiness(b), emptiness(look[0])
+        ck.check(bool(es) == bool(el), "R-AGREE", fq + "|empty-payload", "%s: a zero-length payload is treated the same by lookup and stream (%s)" % (b["self_adt"].rsplit("::", 1)[-1], "skipped by both" if es else "delivered by both"),
+                 "%s: the %s tests the payload for emptiness (%s) and the %s does not: a stored zero-length tile is delivered by one path and reported absent by the other" %
+                 (b["self_adt"].rsplit("::", 1)[-1], "lookup" if el else "stream", (el or es)[:2], "stream" if el else "lookup"), ir.loc(look[0] if el else b))
+    ck.anchor("R-AGREE", "container readers with their own stream and lookup", list(range(n_e)), 2)
     # ---------------- R-INDEX-SCAN
     scans = [P.fn(fq) for fq in E if ir.contains(P.fn(fq)["body"], lambda y: y.get("k") == "mcall" and (y.get("q") or "").endswith("::get_block_tile_index"))]
     if ck.anchor("R-INDEX-SCAN", "streams that scan a block's tile index", scans, 1):
